@@ -265,4 +265,24 @@ def runJob (v : Variant) (hash : JobInput → String) (baseEnv : Env) (scratch :
         exit := if failed.isNone && complete then 0 else 1
         scratchAfter := after }
 
+/-! ## where the JobOutput goes
+`_molli_run <input> -o <outdir> -s <scratch>`: each path argument may be absolute or relative to the directory the
+runner was started in.  The runner changes into its private directory for the commands; the output file must
+nevertheless land in `<outdir>` as the caller meant it. -/
+
+inductive PathArg
+  | abs (segs : List String)
+  | rel (segs : List String)
+deriving Repr, DecidableEq
+
+/-- the directory a path argument denotes for a process whose working directory is `cwd` -/
+def PathArg.resolve (cwd : List String) : PathArg → List String
+  | .abs p => p
+  | .rel p => cwd ++ p
+
+/-- the file `run_local` writes the JobOutput to: started in `cwd0`, private directory `td`, input file `<stem>.inp`.
+`dumpInsideScratch = true` describes a runner that dumps before it has left its private directory. -/
+def outputLocation (dumpInsideScratch : Bool) (cwd0 td : List String) (out : PathArg) (stem : String) : List String :=
+  out.resolve (if dumpInsideScratch then td else cwd0) ++ [stem ++ ".out"]
+
 end Molli.Model.Job
